@@ -46,14 +46,15 @@ type nondetRec struct {
 	Conc  int // for choose
 }
 
-type violation struct {
+type Violation struct {
 	Label   string
 	Diag    map[string]any
 	Nondet  []replayVal
 	Kind    string // assert | panic | deadlock | race
 	Msg     string
-	Prefix  []decision
-	Harness string
+	Prefix   []decision
+	Harness  string
+	Schedule []int
 }
 
 type replayVal struct {
@@ -83,7 +84,7 @@ type Path struct {
 	obligs     int
 	discharged int
 	trivial    int
-	violations []violation
+	violations []Violation
 	feasQ      int
 	branches   int
 	sched      []int
@@ -452,7 +453,7 @@ func (in *Interp) branchAssume(c *term.T) bool {
 	return true
 }
 
-// assert checks cond under the pc; records a violation with a full model if it can fail.
+// assert checks cond under the pc; records a Violation with a full model if it can fail.
 func (in *Interp) assert(cond *term.T, label string, diag map[string]any) {
 	p := in.path
 	p.obligs++
@@ -539,7 +540,7 @@ func (in *Interp) recordViolation(kind, label, msg string, diag map[string]any, 
 	}
 	tr := make([]decision, len(p.trace))
 	copy(tr, p.trace)
-	p.violations = append(p.violations, violation{Label: label, Diag: cd, Nondet: vals, Kind: kind, Msg: msg, Prefix: tr})
+	p.violations = append(p.violations, Violation{Label: label, Diag: cd, Nondet: vals, Kind: kind, Msg: msg, Prefix: tr})
 }
 
 func sortedKeys(m map[string]bool) []string {
